@@ -237,54 +237,19 @@ Proof. exists [1; 4; K_mean_reduced_axis_max_size + 1; 2], [1]. split; vm_comput
 Theorem constraint_matches_doc_argmax_depth : forall shape, constraint_argmax_depth shape = doc_argmax_depth shape.
 Proof. reflexivity. Qed.
 
-(* --- bias: "fit within 40-bits" --- *)
-Lemma py_bin_len2_le : forall v n, 1 <= n -> (py_bin_len2 v <=? n + 1) = ((- 2 ^ n <? v) && (v <? 2 ^ (n + 1))).
-Proof.
-  intros v n Hn. unfold py_bin_len2.
-  assert (P : 0 < 2 ^ n) by (apply Z.pow_pos_nonneg; lia).
-  assert (P' : 2 ^ (n + 1) = 2 * 2 ^ n) by (rewrite Z.pow_add_r by lia; lia).
-  destruct (Z.eqb_spec v 0) as [->|Hv].
-  - destruct (Z.leb_spec 1 (n + 1)); destruct (Z.ltb_spec (- 2 ^ n) 0); destruct (Z.ltb_spec 0 (2 ^ (n + 1))); try lia; reflexivity.
-  - destruct (Z.ltb_spec 0 v) as [Hp|Hp].
-    + pose proof (Z.log2_lt_pow2 v (n + 1) Hp) as L.
-      destruct (Z.leb_spec (Z.log2 v + 1) (n + 1)); destruct (Z.ltb_spec (- 2 ^ n) v); destruct (Z.ltb_spec v (2 ^ (n + 1)));
-        try reflexivity; try lia.
-    + assert (Hn' : 0 < - v) by lia. pose proof (Z.log2_lt_pow2 (- v) n Hn') as L.
-      destruct (Z.leb_spec (Z.log2 (- v) + 2) (n + 1)); destruct (Z.ltb_spec (- 2 ^ n) v); destruct (Z.ltb_spec v (2 ^ (n + 1)));
-        try reflexivity; try lia.
-Qed.
-
-(* what the code accepts: -2^39 < v < 2^40 *)
-Theorem constraint_bias_40bit_spec : forall has_bias is64 has_values vals,
-  constraint_bias_40bit has_bias is64 has_values vals =
-  impb (has_bias && is64 && has_values) (forallb (fun v => (- 2 ^ 39 <? v) && (v <? 2 ^ 40)) vals).
-Proof.
-  intros. unfold constraint_bias_40bit, impb. cbv zeta.
-  destruct (has_bias && is64 && has_values); [|reflexivity]. cbn [negb orb].
-  apply forallb_ext'. intro v. apply (py_bin_len2_le v 39). lia.
-Qed.
-(* a 40-bit field holds -2^39 .. 2^39 - 1: the code accepts 2^39 (and everything up to 2^40 - 1) which does not fit,
-   and rejects -2^39 which does *)
-Theorem constraint_matches_doc_bias_40bit_refuted :
-  (exists vals, constraint_bias_40bit true true true vals = true /\ doc_bias_40bit true true true vals = false) /\
-  (exists vals, constraint_bias_40bit true true true vals = false /\ doc_bias_40bit true true true vals = true).
-Proof. split; [exists [2 ^ 39] | exists [- 2 ^ 39]]; split; vm_compute; reflexivity. Qed.
-(* on values strictly inside (-2^39, 2^39) the two coincide *)
-Theorem constraint_matches_doc_bias_40bit_partial : forall has_bias is64 has_values vals,
-  forallb (fun v => negb (v =? - 2 ^ 39) && (v <? 2 ^ 39)) vals = true ->
+(* --- bias: "fit within 40-bits": the values a 40-bit two's complement field holds --- *)
+Theorem constraint_matches_doc_bias_40bit : forall has_bias is64 has_values vals,
   constraint_bias_40bit has_bias is64 has_values vals = doc_bias_40bit has_bias is64 has_values vals.
 Proof.
-  intros hb i64 hv vals H. rewrite constraint_bias_40bit_spec. unfold doc_bias_40bit, impb.
-  destruct (hb && i64 && hv); [|reflexivity]. cbn [negb orb].
-  induction vals as [|v r IH]; [reflexivity|]. cbn [forallb] in *.
-  apply andb_true_iff in H. destruct H as [Hv Hr]. rewrite (IH Hr). f_equal.
-  apply andb_true_iff in Hv. destruct Hv as [H1 H2]. unfold in_int.
-  change (dn doc_nums_constraint_bias_40bit 0) with 40. change (40 - 1) with 39.
-  assert (2 ^ 40 = 2 * 2 ^ 39) by reflexivity. assert (0 < 2 ^ 39) by reflexivity.
-  destruct (Z.eqb_spec v (- 2 ^ 39)); [discriminate|].
-  destruct (Z.ltb_spec v (2 ^ 39)); [|discriminate].
-  destruct (Z.ltb_spec (- 2 ^ 39) v); destruct (Z.ltb_spec v (2 ^ 40)); destruct (Z.leb_spec (- 2 ^ 39) v); try lia; reflexivity.
+  intros. unfold constraint_bias_40bit, doc_bias_40bit, impb. cbv zeta.
+  destruct (has_bias && is64 && has_values); [|reflexivity]. cbn [negb orb].
+  apply forallb_ext'. intro v. unfold in_int.
+  change (Z.shiftl 1 39) with (2 ^ (dn doc_nums_constraint_bias_40bit 0 - 1)). reflexivity.
 Qed.
+Example ex_bias_40bit : constraint_bias_40bit true true true [2 ^ 39 - 1; - 2 ^ 39] = true /\
+                        constraint_bias_40bit true true true [2 ^ 39] = false /\
+                        constraint_bias_40bit true true true [- 2 ^ 39 - 1] = false.
+Proof. repeat split; vm_compute; reflexivity. Qed.
 
 (* --- strides of CONV_2D / AVERAGE_POOL_2D --- *)
 Theorem constraint_stride_width_no_upper_limit_spec : forall sw sh ifm ofm,
